@@ -7,6 +7,10 @@ Prints one JSON line; with --keep-as copies the seed to /verif/seeded/NAME/ with
 import json, os, re, shutil, subprocess, sys, time
 
 ENV = dict(os.environ, GOFLAGS="-mod=mod", GOPROXY="off", GOSUMDB="off", GOTOOLCHAIN="local")
+# several seeds at a time (tools/seedpar.py): the change is applied in SEED_REPO, a scratch worktree of /repo, and the
+# checks run from SEED_VERIF, a scratch worktree of /verif pointed at it; by default both are the real trees
+RUN_REPO = os.environ.get("SEED_REPO", "/repo")
+RUN_VERIF = os.environ.get("SEED_VERIF", "/verif")
 
 
 def sh(cmd, cwd=None, timeout=1800):
@@ -71,22 +75,22 @@ def main():
         sh("git -C /repo worktree remove --force %s" % wt)
         shutil.rmtree(wt, ignore_errors=True)
     # ---- run the registered checks against /repo with the change applied ----
-    rc, o = sh("git -C /repo status --porcelain")
+    rc, o = sh("git -C %s status --porcelain" % RUN_REPO)
     if o.strip():
-        out["error"] = "/repo working tree not clean"; print(json.dumps(out)); return 1
-    rc, o = sh("git -C /repo apply %s" % patch)
+        out["error"] = "%s working tree not clean" % RUN_REPO; print(json.dumps(out)); return 1
+    rc, o = sh("git -C %s apply %s" % (RUN_REPO, patch))
     out["checks"] = {}
     try:
         for p in props:
             for tier in tiers:
                 t0 = time.time()
-                rc, o = sh("cd /verif && VERIF_NO_EVIDENCE=1 ./check %s --tier %s" % (p, tier), timeout=3600)
+                rc, o = sh("cd %s && VERIF_REPO=%s VERIF_NO_EVIDENCE=1 ./check %s --tier %s" % (RUN_VERIF, RUN_REPO, p, tier), timeout=3600)
                 viol = [l for l in o.splitlines() if l.startswith("VIOLATION")]
                 out["checks"]["%s/%s" % (p, tier)] = {"exit": rc, "violations": viol[:3], "detail": [l.strip()[:300] for l in o.splitlines() if l.startswith("  ")][:3], "secs": round(time.time() - t0, 1)}
                 if rc != 0:
                     break
     finally:
-        sh("git -C /repo checkout -- . && git -C /repo clean -fdq")
+        sh("git -C %s checkout -- . && git -C %s clean -fdq" % (RUN_REPO, RUN_REPO))
     out["detected"] = any(v["exit"] == 1 and v["violations"] for v in out["checks"].values())
     out["confirmed"] = bool(out.get("builds") and out.get("baseline_145") and (not tests or (out.get("demo_clean_passes") and out.get("demo_patched_fails"))))
     print(json.dumps(out))
